@@ -8,7 +8,7 @@
    reply / disconnect events on front-end fe (appv2.NDNApp, app.NDNApp, Dispatcher). *)
 From NDN Require Import Base.Prelude Base.Text Model.TlvVar Model.Name Model.Trie Model.Dispatch Spec.DispatchSpec.
 From NDN Require Import Proofs.TrieProofs Proofs.DispatchProofs Proofs.DispatchHistory Proofs.DispatchTop
-  Proofs.ConstsAppAgree Proofs.NameUriName Proofs.NameNormalize.
+  Proofs.TrieInverse Proofs.ConstsAppAgree Proofs.NameUriName Proofs.NameNormalize.
 From NDN Require Properties.C04Findings.
 Local Open Scope N_scope.
 
@@ -89,6 +89,15 @@ Theorem C04_detach_absent fe ops k :
   attached t k = None -> fib_detach t k = (t, Err EKey).
 Proof. exact (top_detach_absent fe ops k). Qed.
 Print Assumptions C04_detach_absent.
+
+(* attach followed by detach of a free prefix gives back the identical table (structure included) *)
+Theorem C04_attach_detach_inverse fe ops k h v ex :
+  Forall wf_op ops ->
+  let t := s_fib (exec fe st0 ops) in
+  attached t k = None ->
+  fib_detach (fst (fib_attach fe t k h v ex)) k = (t, Ok tt).
+Proof. exact (top_attach_detach_inverse fe ops k h v ex). Qed.
+Print Assumptions C04_attach_detach_inverse.
 
 (* after its detach a handler receives nothing, whatever happens next, until it is attached again
    (invocations already queued by earlier Interests excluded by the third hypothesis) *)
